@@ -424,53 +424,59 @@ func TestVerifC03Special(t *testing.T) {
 		}
 	}
 	// (b)
-	labels := []string{"com", "example", "n", "m", "l", "k", "j", "i", "h", "g", "f", "e", "d", "c"}
-	var pats []string
-	suffix := ""
-	for _, l := range labels {
-		suffix = "." + l + suffix
-		pats = append(pats, "*"+suffix)
-	}
-	full := "b" + suffix // matched by every pattern
-	pats = append(pats, "*"+full) // and by one whose wildcard stands for nothing: as a reversed string it sorts in front of the exact host
-	orders := [][]int{nil, nil, nil}
-	for i := range pats {
-		orders[0] = append(orders[0], i)
-		orders[1] = append(orders[1], len(pats)-1-i)
-		orders[2] = append(orders[2], (i*7)%len(pats)) // 7 and 15 are coprime: a permutation
-	}
-	for oi, ord := range orders {
-		for _, withExact := range []bool{false, true} {
-			var sb strings.Builder
-			for _, i := range ord {
-				fmt.Fprintf(&sb, "route add p%d %s/ http://10.0.0.1:80/\n", i, pats[i])
-			}
-			if withExact {
-				fmt.Fprintf(&sb, "route add exact %s/ http://10.0.0.2:80/\n", full)
-			}
-			tbl, err := vfTable(sb.String())
-			if err != nil {
-				panic("VERIF-INFRA: " + err.Error())
-			}
-			for _, rq := range []string{full, "x." + full[2:], strings.ToUpper(full)} {
-				want := fmt.Sprintf("p%d", len(pats)-1)
-				if strings.ToLower(rq) != full {
-					want = fmt.Sprintf("p%d", len(pats)-2) // x.c.d...: the pattern *b.c.d... does not match, the longest of the others does
+	allLabels := []string{"com", "example", "n", "m", "l", "k", "j", "i", "h", "g", "f", "e", "d", "c", "b2", "b1"}
+	for _, nl := range []int{10, 11, 12, 13, 14, 16} {
+		labels := allLabels[:nl]
+		var pats []string
+		suffix := ""
+		for _, l := range labels {
+			suffix = "." + l + suffix
+			pats = append(pats, "*"+suffix)
+		}
+		full := "b" + suffix          // matched by every pattern
+		pats = append(pats, "*"+full) // and by one whose wildcard stands for nothing: as a reversed string it sorts in front of the exact host
+		orders := [][]int{nil, nil, nil}
+		for i := range pats {
+			orders[0] = append(orders[0], i)
+			orders[1] = append(orders[1], len(pats)-1-i)
+			orders[2] = append(orders[2], (i*7)%len(pats))
+		}
+		if len(pats)%7 == 0 {
+			orders = orders[:2] // 7 must be coprime with the length to give a permutation
+		}
+		for oi, ord := range orders {
+			for _, withExact := range []bool{false, true} {
+				var sb strings.Builder
+				for _, i := range ord {
+					fmt.Fprintf(&sb, "route add p%d %s/ http://10.0.0.1:80/\n", i, pats[i])
 				}
-				if withExact && strings.ToLower(rq) == full {
-					want = "exact"
+				if withExact {
+					// the exact host has a route for one path only: for any other path the patterns decide, most specific first
+					fmt.Fprintf(&sb, "route add exact %s/only http://10.0.0.2:80/\n", full)
 				}
-				L.Case()
-				L.NontrivialKey(fmt.Sprint("many", oi, withExact, rq))
-				var tg *Target
-				msg, _, pan := ev.Guard(func() { tg = tbl.Lookup(vfReq(rq, "/", false), "", rrPicker, prefixMatcher, gc, false) })
-				got := "<none>"
-				if tg != nil {
-					got = tg.Service
+				tbl, err := vfTable(sb.String())
+				if err != nil {
+					panic("VERIF-INFRA: " + err.Error())
 				}
-				L.Outcome(got)
-				if pan || got != want {
-					L.Violation("not-most-specific/many-matching-patterns", map[string]interface{}{"patterns": len(pats), "insertion_order": oi, "exact_host_present": withExact, "host": rq, "got": got, "want": want, "panic": msg})
+				for _, rq := range [][2]string{{full, "/"}, {full, "/only/x"}, {"x." + full[2:], "/"}, {strings.ToUpper(full), "/only"}} {
+					want := fmt.Sprintf("p%d", len(pats)-1)
+					if strings.ToLower(rq[0]) != full {
+						want = fmt.Sprintf("p%d", len(pats)-2) // x.c.d...: the pattern *b.c.d... does not match, the longest of the others does
+					} else if withExact && strings.HasPrefix(rq[1], "/only") {
+						want = "exact"
+					}
+					L.Case()
+					L.NontrivialKey(fmt.Sprint("many", nl, oi, withExact, rq))
+					var tg *Target
+					msg, _, pan := ev.Guard(func() { tg = tbl.Lookup(vfReq(rq[0], rq[1], false), "", rrPicker, prefixMatcher, gc, false) })
+					got := "<none>"
+					if tg != nil {
+						got = tg.Service
+					}
+					L.Outcome(got)
+					if pan || got != want {
+						L.Violation("not-most-specific/many-matching-patterns", map[string]interface{}{"patterns": len(pats), "insertion_order": oi, "exact_host_present_for_/only": withExact, "host": rq[0], "path": rq[1], "got": got, "want": want, "panic": msg})
+					}
 				}
 			}
 		}
